@@ -281,8 +281,9 @@ class UTPM(Ring, RawAlgorithmsMixIn):
         ybar, dummy, xbar = out
         # print 'xbar =', xbar
         # print 'ybar =', ybar
-        xbar += ybar[sl]
+        tmp = ybar[sl].clone()
         ybar[sl].data[...] = 0.
+        xbar += tmp
         # print 'funcargs=',funcargs
         # print y[funcargs[0]]
 
